@@ -116,6 +116,9 @@ def run_shard(spec):
                         pos += 1
             for f in os.listdir(scratch):
                 os.remove(os.path.join(scratch, f))
+            import gc
+
+            gc.collect()  # let the classes created on the fly die, so that their addresses are reused
         out["samples"].append({"history": "random permutation", "first_values": [pool[i][0] for i in order[:8]],
                                "probe_order": probes[:5]})
     finally:
